@@ -13,8 +13,8 @@ RULE = ('unfiltered random and shaped bases (consistent, weakly consistent, inco
         'augmented by (Bottom|!fact); every operator/back-end must raise on an empty or mode-inconsistent base. '
         'Non-trivial = base with >= 2 conditionals that is inconsistent or whose (extended) partition has >= 2 '
         'non-empty layers; distinct by hash(base).')
-ASSUMPTIONS = ['worlds are enumerated: <= 6 atoms', 'reference partition M1 is unique, so it is an exact oracle']
-TRUSTED = []
+ASSUMPTIONS = ['worlds are enumerated: <= 6 atoms; additionally 60 (thorough: 900) bases of 8-100 atoms judged by the same definition evaluated with satisfiability questions (vf/bigref.py)', 'reference partition M1 is unique, so it is an exact oracle']
+TRUSTED = ["z3 'unsat' answers inside the large-base reference vf/bigref.py (its 'sat' answers are re-checked by the pure-Python evaluator)"]
 FLOOR = {'quick': 150, 'thorough': 1500}
 BUDGET = {'quick': 90, 'thorough': 900}
 N = {'quick': 2000, 'thorough': 30000}
@@ -22,8 +22,77 @@ REQUIRED = {'quick': {'refusals_checked': 100, 'diagnostics_checked': 400},
             'thorough': {'refusals_checked': 2000, 'diagnostics_checked': 10000}}
 
 
+BIG_N = {'quick': 60, 'thorough': 900}
+
+
 def cases(tier, seed):
-    return [{'prop': ID, 'seed': seed, 'idx': i} for i in range(N[tier])]
+    return ([{'prop': ID, 'seed': seed, 'idx': 2 * 10 ** 6 + i, 'big': True, 'tier': tier} for i in range(BIG_N[tier])]
+            + [{'prop': ID, 'seed': seed, 'idx': i} for i in range(N[tier])])
+
+
+def run_big(case):
+    """bases of 8-100 atoms: verdict and partition of both variants, both modes, against the tolerance-partition
+    definition evaluated with satisfiability questions (vf/bigref.py); unions are made inconsistent / weakly
+    consistent by adding contradicting and self-defeating rules"""
+    from inference.consistency_sat import consistency, consistency_indices
+    from .. import bigref, corpus
+    from .opcommon import big_source
+    rng = gen.rng_for(case['seed'], ID, case['idx'])
+    res = {'evals': 0, 'nontrivial': [], 'violations': [], 'inconclusive': [], 'counters': {}}
+    cnt = res['counters']
+    sig, conds, src = big_source(rng, case.get('tier', 'quick'), rng.random() < 0.4, False)
+    conds = list(conds)
+    r = rng.random()
+    if r < 0.25:
+        B, A = rng.choice(conds)
+        conds.insert(rng.randrange(len(conds) + 1), (fml.Not(B), A))          # contradicts a rule: often inconsistent
+    elif r < 0.45:
+        x = fml.V(rng.choice(sig))
+        conds.insert(rng.randrange(len(conds) + 1), (fml.Not(x), x))          # self-defeating: infinity layer
+    keys = sorted(rng.sample(range(0, 2 * len(conds) + 2), len(conds))) if rng.random() < 0.3 else None
+    bdesc = {'source': src, 'atoms': len(sig), 'conditionals': len(conds), 'keys': 'arbitrary' if keys else '1..n'}
+    bb = impl.mk_bb(sig, conds, keys=keys)
+    klist = list(bb.conditionals.keys())
+    pos_obj = {id(c): i for i, c in enumerate(bb.conditionals.values())}
+    pos_key = {k: i for i, k in enumerate(klist)}
+    try:
+        B_ = bigref.BigBase(sig, conds)
+        refs = {}
+        for weakly in (False, True):
+            S = bigref.BigSetup(B_, weakly)
+            refs[weakly] = False if not S.ok else ([sorted(l) for l in S.part] + ([sorted(S.inf)] if weakly else []))
+    except bigref.OracleError as e:
+        res['inconclusive'].append('large-base oracle: %s' % e)
+        return res
+    cnt['large_bases_judged_by_definition'] = 1
+    cnt['large_class'] = {('strong' if refs[False] is not False else 'weak' if refs[True] is not False else 'inconsistent'): 1}
+    for weakly in (False, True):
+        mode = 'extended' if weakly else 'strict'
+        try:
+            po, _ = consistency(bb, 'z3', weakly)
+            pk, _ = consistency_indices(bb, 'z3', weakly)
+        except Exception as e:
+            res['violations'].append({'sig': 'consistency:%s:exception:%s:large-base' % (mode, type(e).__name__),
+                                      'detail': {'base': bdesc, 'error': str(e)[:200]}})
+            continue
+        res['evals'] += 2
+        io = False if po is False else [sorted(pos_obj[id(c)] for c in l) for l in po]
+        ik = False if pk is False else [sorted(pos_key[k] for k in l) for l in pk]
+        r_ = refs[weakly]
+        if (io is False) != (r_ is False):
+            res['violations'].append({'sig': 'consistency:%s:verdict(impl=%s,def=%s):large-base' % (mode, io is not False, r_ is not False),
+                                      'detail': {'base': bdesc, 'definition_layers': r_ and [len(l) for l in r_]}})
+        elif io is not False and io != r_:
+            res['violations'].append({'sig': 'consistency:%s:partition-differs:large-base' % mode,
+                                      'detail': {'base': bdesc, 'impl': [len(l) for l in io], 'definition': [len(l) for l in r_]}})
+        if io != ik:
+            res['violations'].append({'sig': 'consistency_indices:%s:differs-from-object-variant:large-base' % mode,
+                                      'detail': {'base': bdesc}})
+    res['nontrivial'].append(h(bdesc, [fml.cond_text(*c) for c in conds[:6]]))
+    res['sample'] = {'base': bdesc, 'kind': 'large base judged by the satisfiability-based definition',
+                     'strict_layers': refs[False] and [len(l) for l in refs[False]],
+                     'extended_layers': refs[True] and [len(l) for l in refs[True]]}
+    return res
 
 
 def ref_partition(base, extended):
@@ -36,6 +105,8 @@ def ref_partition(base, extended):
 
 
 def run_case(case):
+    if case.get('big'):
+        return run_big(case)
     from inference.consistency_sat import consistency, consistency_indices
     from inference.consistency_diagnostics import consistency_diagnostics
     rng = gen.rng_for(case['seed'], ID, case['idx'])
